@@ -110,7 +110,10 @@ def oracle(case):
             for r in range(lo, hi):
                 x = rec[r]
                 c = got[x]
-                tied_with_lower_boundary_of_c = (c < i and R[c] < R[c + 1] and rec[R[c + 1] - 1] == x)
+                # lower boundary of class c = the multiplicity at its last rank R[c+1]-1 (this is what the class stores as its
+                # minimum, also when its own rank interval is empty: two events of equal multiplicity cannot be told apart by
+                # any lookup, and the one above the boundary is assigned class c)
+                tied_with_lower_boundary_of_c = (c < i and R[c + 1] > 0 and rec[R[c + 1] - 1] == x)
                 if c != i and not tied_with_lower_boundary_of_c:
                     return (f"event of multiplicity {x} has descending rank {r}, inside the rank interval [{lo},{hi}) of "
                             f"class {i} ({cleaned[i]}-{cleaned[i+1]}%), but get_centrality_class gives {c} "
